@@ -190,4 +190,27 @@ theorem runChunks_flatten {σ : Type} (step : σ → UInt8 → Out (σ × UInt8)
       obtain ⟨h', o⟩ := r
       simp only [ih]
 
+/-- the round trip between any two halves in equal states (key, position, previous byte) satisfying the
+    invariant, with no reference to how they were made: the encrypter does not panic and follows the
+    recurrence from its current position; the decrypter maps that ciphertext back to the plaintext;
+    both end in equal states again, invariant kept -/
+theorem roundtrip_from_equal (m : Nat) (e0 d0 : Half) (hi : e0.Inv m) (hm : m = e0.key.length)
+    (hk : d0.key = e0.key) (hx : d0.index = e0.index) (hp : d0.prev = e0.prev) (xs : Bytes) :
+    ∃ e' d', runSteps (encStep m) e0 xs = .ok (e', Spec.recEnc e0.key e0.index e0.prev xs) ∧
+      runSteps (decStep m) d0 (Spec.recEnc e0.key e0.index e0.prev xs) = .ok (d', xs) ∧
+      e'.Inv m ∧ e'.key = e0.key ∧ d'.key = e'.key ∧ d'.index = e'.index ∧ d'.prev = e'.prev := by
+  have hdi : d0.Inv m := by
+    obtain ⟨a, b, c, e4⟩ := hi
+    exact ⟨a, b, by rw [hk]; exact c, by rw [hx]; exact e4⟩
+  obtain ⟨e', r1, inv1, k1, i1, p1⟩ :=
+    encrypt_spec m e0 xs e0.index hi hm (Nat.mod_eq_of_lt hi.2.2.2).symm
+  obtain ⟨d', r2, _, k2, i2, p2⟩ :=
+    decrypt_spec m d0 (Spec.recEnc e0.key e0.index e0.prev xs) d0.index hdi (by rw [hk]; exact hm)
+      (Nat.mod_eq_of_lt hdi.2.2.2).symm
+  refine ⟨e', d', r1, ?_, inv1, k1, ?_, ?_, ?_⟩
+  · rw [r2, hk, hx, hp, Spec.recDec_recEnc]
+  · rw [k1, k2, hk]
+  · rw [i1, i2, hx, Spec.recEnc_length]
+  · rw [p1, p2, hp]
+
 end WowSrp
